@@ -479,10 +479,14 @@ def _depth(root, tier):
 
 
 def _all_small(tier):
-    """All 2x3 arrays over {0,1,2,5} (4096) as additional roots, depth 1 (quick: every 8th) or 2."""
+    """Additional roots: ALL arrays of a small shape over a small label alphabet.
+    quick: all 2x2 arrays over {0,1,2,5} (256) and all 2x3 arrays over {0,1,2} (729), depth 1;
+    thorough: all 2x3 arrays over {0,1,2,5} (4096), depth 2."""
     import itertools
-    vals = (0, 1, 2, 5)
-    return [list(c) for c in itertools.product(vals, repeat=6)]
+    if tier == 'thorough':
+        return [((2, 3), list(c)) for c in itertools.product((0, 1, 2, 5), repeat=6)]
+    return ([((2, 2), list(c)) for c in itertools.product((0, 1, 2, 5), repeat=4)]
+            + [((2, 3), list(c)) for c in itertools.product((0, 1, 2), repeat=6)])
 
 
 def plan(tier, seed):
@@ -506,9 +510,9 @@ def plan(tier, seed):
 
 
 class SmallSystem(System):
-    def __init__(self, arr, tier):
+    def __init__(self, arr, tier, shape=(2, 3)):
         super().__init__('small', tier)
-        self.arr = np.array(arr).reshape(2, 3)
+        self.arr = np.array(arr).reshape(shape)
 
     def initial(self):
         from photutils.segmentation import SegmentationImage
@@ -529,8 +533,9 @@ def run_unit(unit, tier, seed):
     else:
         small = _all_small(tier)
         for i in range(unit['shard'], len(small), unit['nshards']):
-            sysm = SmallSystem(small[i], tier)
-            explore(sysm, unit['depth'], acc, extra={'root': 'small', 'array': small[i]})
+            shape, arr = small[i]
+            sysm = SmallSystem(arr, tier, shape)
+            explore(sysm, unit['depth'], acc, extra={'root': 'small', 'array': arr, 'shape': list(shape)})
     return acc
 
 
@@ -542,7 +547,7 @@ def replay(case, seed):
     acc = Acc()
     tier = 'thorough'
     if case.get('root') == 'small':
-        sysm = SmallSystem(case['array'], tier)
+        sysm = SmallSystem(case['array'], tier, tuple(case.get('shape', (2, 3))))
     else:
         sysm = System(case['root'], tier)
     hist = _tup(case['history'])
@@ -558,7 +563,7 @@ def replay(case, seed):
 
 
 def describe(tier, seed):
-    return {'roots': list(ROOTS) + SPECIAL_ROOTS + ['all 4096 2x3 arrays over {0,1,2,5}'],
+    return {'roots': list(ROOTS) + SPECIAL_ROOTS + [_all_small.__doc__.split('quick:')[1].strip()],
             'bound': {'depth': {r: _depth(r, tier) for r in list(ROOTS) + SPECIAL_ROOTS},
                       'small_arrays_depth': 2 if tier == 'thorough' else 1},
             'reads': READS}
